@@ -3,7 +3,7 @@
 Shared by C04, C11, C20 and C07.  Does not import pyx12.
 """
 
-BODY_IDS = ['BHT', 'NM1', 'REF', 'DTP', 'N3', 'N4', 'PER', 'DMG', 'SBR', 'PAT', 'AMT', 'QTY']
+BODY_IDS = ['BHT', 'NM1', 'REF', 'DTP', 'N3', 'N4', 'PER', 'DMG', 'SBR', 'PAT', 'AMT', 'QTY', 'LS', 'LE']      # LS/LE: loop brackets, counted like any segment
 ALNUM = 'ABCDEFGHIJKLMNOPQRSTUVWXYZ0123456789'
 
 
